@@ -10,6 +10,11 @@
 //!               5: the same failure of the client while the tunnel is back-pressured: the destination does not read for 3 s, the client
 //!                  uploads until nothing more is taken from it for 500 ms (or 32 MiB / 2.2 s have gone), fails as in 4, and the destination
 //!                  then reads on (N is not used: the number of bytes handed over is reported)
+//!               6: HTTP/3 only, in : [3, 6, N, size of a DATA frame, rounds]: the client uploads N bytes in DATA frames of that size without
+//!                  a pause and resets its request stream right behind the last of them (no wait as in 4, no back-pressure as in 5), the
+//!                  destination sends nothing and keeps its side open; repeated on fresh endpoints up to `rounds` times, the first round
+//!                  that is not "the endpoint let go of the destination, the client was not shown a clean end" is reported (else the last),
+//!                  with the number of rounds run appended to the output
 //! out: [996] | [status, bytes the destination received, they are the client's (0|1), how the upload ended at the destination (0 not yet | 1 end of stream | 2 error),
 //!               bytes the client received, they are the destination's (0|1), how the download ended at the client (0 not within 10 s | 1 clean end | 2 failure: reset / error / connection lost),
 //!               the endpoint's connection to the destination (0 still held open by the endpoint 5 s later | 1 released | 2 cannot tell here), ms until it was released,
@@ -75,9 +80,35 @@ struct Seen {
 
 pub fn run(toks: Vec<Tok>) -> Vec<Tok> {
     let f = toks[0].clone();
+    if f[1] != 6 {
+        return run_once(f);
+    }
+    // scenario 6 fails only now and then on an endpoint that has the defect: the same history is repeated, each round on a fresh
+    // endpoint, up to f[4] times; the first round in which the endpoint does not let go of the destination (or shows the client a
+    // clean end, or delivers other bytes than the client's, or the environment fails) is the one reported, else the last one;
+    // the last token is the number of rounds run
+    let rounds = f.get(4).copied().unwrap_or(1).max(1);
+    let mut out = vec![vec![996]];
+    for round in 1..=rounds {
+        out = run_once(f.clone());
+        let r = &out[0];
+        let good = r.len() >= 10 && r[0] == 200 && r[2] == 1 && r[5] == 1 && r[6] != 1 && r[7] == 1;
+        if r.len() >= 10 {
+            out[0].push(round);
+        }
+        if !good {
+            break;
+        }
+    }
+    out
+}
+
+fn run_once(f: Tok) -> Vec<Tok> {
     let rt = tokio::runtime::Builder::new_multi_thread().worker_threads(3).enable_all().build().unwrap();
     rt.block_on(async move {
         let (proto, scen, n_up, m_down) = (f[0], f[1], f[2] as usize, f[3] as usize);
+        // scenario 6: the fourth number is the size of the client's DATA frames, the destination sends nothing
+        let (piece, m_down) = if scen == 6 { (m_down.clamp(1, 60000), 0) } else { (0, m_down) };
         let l = TcpListener::bind("127.0.0.1:0").await.unwrap();
         let canary = l.local_addr().unwrap();
         let seen = Arc::new(Seen { got: Mutex::new(vec![]), end: AtomicUsize::new(0), peer: Mutex::new(None) });
@@ -443,6 +474,27 @@ pub fn run(toks: Vec<Tok>) -> Vec<Tok> {
                                 c.drive(Duration::from_millis(20), |_| false).await;
                             }
                         }
+                        6 => {
+                            // the upload in DATA frames of `piece` bytes without a pause, and RESET_STREAM right behind the last
+                            // of them: the connection lives on
+                            uploaded = 0;
+                            while uploaded < data.len() {
+                                let n = c.send_some(id, &data[uploaded..data.len().min(uploaded + piece)]);
+                                if n > 0 {
+                                    uploaded += n;
+                                } else {
+                                    c.drive(Duration::from_millis(1), |_| false).await;
+                                    if c.is_shut() {
+                                        break;
+                                    }
+                                }
+                            }
+                            c.reset_stream(id, 0x10c);
+                            let deadline = tokio::time::Instant::now() + patience;
+                            while seen.end.load(Ordering::SeqCst) == 0 && tokio::time::Instant::now() < deadline {
+                                c.drive(Duration::from_millis(20), |_| false).await;
+                            }
+                        }
                         _ => {
                             c.send_body(id, &data, false).await;
                             let deadline = tokio::time::Instant::now() + patience;
@@ -460,7 +512,7 @@ pub fn run(toks: Vec<Tok>) -> Vec<Tok> {
                     back = st.data.clone();
                 }
             }
-            if scen == 4 || scen == 5 {
+            if scen == 4 || scen == 5 || scen == 6 {
                 // the connection stays: what is observed below is the answer to the stream's reset alone
                 let out = finish(&seen, canary, status, &data, uploaded, &back, m_down, end, Some(&mut c)).await;
                 c.close();
